@@ -200,7 +200,8 @@ def run(tier):
                       {"events": events[-5:]})
 
     # 4. drift: Model prediction vs observation (inside the Contract, never a verdict) ----
-    for exp, obs in zip(expected, events):
+    # (xlookup events are the driver's own additions after a step, not steps of the schedule)
+    for exp, obs in zip(expected, [e for e in events if e["e"] != "xlookup"]):
         if exp is None:
             continue
         for k in ("out", "t"):
